@@ -131,3 +131,144 @@ package plugin
 //@ at return e.newValue.Call assume [a-default-configuration-function-returns-the-configuration] len(result_of(e.newValue.Call, 0)) == 1
 //@ ensures [one-default-configuration-created] calls(e.newValue.Call) == 1 && len(maybeConf) == 1
 //@ ensures [nil-pointer-configuration-is-replaced-by-a-new-object] imp(result_of(conf.Kind, 0) == reflect.Ptr && calls(conf.IsNil) == 1 && result_of(conf.IsNil, 0), calls(reflect.New) == 1 && maybeConf[0] == result_of(reflect.New, 0))
+
+// ---------------------------------------------------------------- registration and lookup
+
+// Registering: the (type, name) pair gets exactly one entry, built from the given constructor and optional default-config
+// function; a second registration of the pair panics and leaves the first entry in place.
+//@ func (r *Registry) Register
+//@ props C18
+//@ may_panic true
+//@ requires r.typeToNameReg != nil
+//@ ensures [registered-under-type-and-name] has(r.typeToNameReg, pluginType) && has(r.typeToNameReg[pluginType], name) && r.typeToNameReg[pluginType][name] == result_of(newNameRegistryEntry, 0)
+//@ ensures [a-new-name] !old(has(r.typeToNameReg, pluginType) && has(r.typeToNameReg[pluginType], name))
+//@ at call newNameRegistryEntry assert [entry-of-the-given-constructor-and-defaults] arg(pluginType) == pluginType0 && arg(constructor) == constructor0 && arg(defaultConfig) == result_of(getNewDefaultConfig, 0)
+//@ at call getNewDefaultConfig assert arg(newDefaultConfigOptional) == defaultConfigOptional0
+
+//@ func newNameRegistryEntry
+//@ props C18
+//@ may_panic true
+//@ modifies nothing
+//@ ensures [constructor-and-default-config-of-the-registration] result.constructor == result_of(newImplConstructor, 0) && result.defaultConfig == result_of(newDefaultConfigContainer, 0)
+//@ at call newImplConstructor assert arg(pluginType) == pluginType0 && arg(constructor) == constructor0
+//@ at call newDefaultConfigContainer assert [for-the-constructor-s-config-type] arg(defaultConfig) == defaultConfig0
+
+//@ func (r *Registry) Lookup
+//@ props C18
+//@ modifies nothing
+//@ ensures [any-registration-for-the-type] result == has(r.typeToNameReg, pluginType)
+
+//@ func (r *Registry) LookupFactory
+//@ props C18
+//@ nilsafe
+//@ requires factoryType != nil
+//@ ensures [factory-shaped-type-of-a-registered-plugin-type] imp(result, result_of(isFactoryType, 0)) && imp(!result_of(isFactoryType, 0), !result)
+
+//@ func newNameRegistry
+//@ props C18
+//@ modifies nothing
+//@ ensures result != nil && fresh(result) && len(result) == 0
+
+//@ func NewRegistry
+//@ props C18
+//@ modifies nothing
+//@ ensures [empty] fresh(result) && result.typeToNameReg != nil && len(result.typeToNameReg) == 0
+
+// At most one optional argument; none means "no default config" / "no fill function".
+//@ func getFillConf
+//@ props C18
+//@ may_panic len(fillConfOptional) > 1
+//@ modifies nothing
+//@ ensures [the-one-given-or-none] imp(len(fillConfOptional) == 0, result == nil) && imp(len(fillConfOptional) == 1, result == fillConfOptional[0])
+
+//@ func getNewDefaultConfig
+//@ props C18
+//@ may_panic len(newDefaultConfigOptional) > 1
+//@ modifies nothing
+//@ ensures [the-one-given-or-none] imp(len(newDefaultConfigOptional) == 0, result == nil) && imp(len(newDefaultConfigOptional) == 1, result == newDefaultConfigOptional[0])
+
+//@ func (e defaultConfigContainer) configRequired
+//@ props C18
+//@ ensures result == result_of(e.newValue.IsValid, 0)
+
+//@ func expect
+//@ props C18
+//@ may_panic !b
+//@ ensures [returns-only-when-the-expectation-holds] b
+//@ modifies nothing
+
+// The package-level functions use the default registry.
+//@ func New
+//@ props C18
+//@ may_panic true
+//@ requires pluginType != nil
+//@ at call defaultRegistry.New assert [same-arguments] arg(pluginType) == pluginType0 && arg(name) == name0 && arg(fillConfOptional) == fillConfOptional0
+//@ ensures plugin == result_of(defaultRegistry.New, 0) && err == result_of(defaultRegistry.New, 1)
+
+//@ func NewFactory
+//@ props C18
+//@ may_panic true
+//@ requires factoryType != nil
+//@ at call defaultRegistry.NewFactory assert [same-arguments] arg(factoryType) == factoryType0 && arg(name) == name0 && arg(fillConfOptional) == fillConfOptional0
+//@ ensures factory == result_of(defaultRegistry.NewFactory, 0) && err == result_of(defaultRegistry.NewFactory, 1)
+
+//@ func Register
+//@ props C18
+//@ may_panic true
+//@ requires defaultRegistry != nil && defaultRegistry.typeToNameReg != nil
+//@ at call DefaultRegistry().Register assert [same-arguments] arg(pluginType) == pluginType0 && arg(name) == name0 && arg(constructor) == newPluginImpl0 && arg(defaultConfigOptional) == defaultConfigOptional0
+
+//@ func DefaultRegistry
+//@ props C18
+//@ modifies nothing
+//@ ensures result == defaultRegistry
+
+// A factory type is func() (Interface) or func() (Interface, error).
+//@ func isFactoryType
+//@ props C18 C17
+//@ nilsafe
+//@ requires t != nil
+//@ ensures [a-function-without-parameters] imp(result, t.Kind() == reflect.Func && t.NumIn() == 0 && (t.NumOut() == 1 || t.NumOut() == 2))
+
+//@ func FactoryPluginType
+//@ props C18 C17
+//@ nilsafe
+//@ requires factoryType != nil
+//@ ensures [the-first-result-type-of-a-factory-type] ok == result_of(isFactoryType, 0) && imp(!ok, plugin == nil)
+
+// ---------------------------------------------------------------- what a registration stores (reflection itself uninterpreted; type expectations panic)
+
+//@ func newImplConstructor
+//@ props C18
+//@ may_panic true
+//@ modifies nothing
+//@ ensures [factory-constructors-are-recognised-by-a-function-result] imp(calls(newFactoryConstructor) == 1, result == box(result_of(newFactoryConstructor, 0))) && imp(calls(newPluginConstructor) == 1, result == box(result_of(newPluginConstructor, 0))) && calls(newFactoryConstructor) + calls(newPluginConstructor) == 1
+//@ at call newFactoryConstructor assert arg(pluginType) == pluginType0 && arg(newFactory) == constructor0
+//@ at call newPluginConstructor assert arg(pluginType) == pluginType0 && arg(newPlugin) == constructor0
+
+//@ func newPluginConstructor
+//@ props C18
+//@ may_panic true
+//@ modifies nothing
+//@ ensures [wraps-the-registered-function] fresh(result) && result.pluginType == pluginType && result.newPlugin == result_of(reflect.ValueOf, 0)
+//@ at call reflect.ValueOf assert arg(i) == newPlugin0
+
+//@ func newFactoryConstructor
+//@ props C18
+//@ may_panic true
+//@ modifies nothing
+//@ ensures [wraps-the-registered-function] fresh(result) && result.pluginType == pluginType && result.newFactory == result_of(reflect.ValueOf, 0)
+//@ at call reflect.ValueOf assert arg(i) == newFactory0
+
+//@ func expectPluginConstructor
+//@ props C18
+//@ may_panic true
+//@ modifies nothing
+
+// No config parameter: no default config is kept (and none may be given). A registered default-config function is kept as it is.
+//@ func newDefaultConfigContainer
+//@ props C18
+//@ may_panic true
+//@ modifies nothing
+//@ ensures [the-registered-default-config-function] imp(constructorType.NumIn() != 0 && defaultConfig != nil, result.newValue == result_of(reflect.ValueOf, 0))
+//@ at call reflect.ValueOf assert arg(i) == defaultConfig0
